@@ -241,7 +241,11 @@ def _diag(
         rd = bd_conf["graph"]["rankdir"]
         if rd == "TB" or rd == "BT":
             gconf["label"] = "{" + gconf["label"] + "}"
-        graph.add_node(pydot.Node("Scale", **gconf))
+        # the legend needs an identifier no component uses
+        lname = "Scale"
+        while lname in sys._g.attrs["nodes"]:
+            lname = "_" + lname
+        graph.add_node(pydot.Node(_qid(lname), **gconf))
     # edges
     p = dict(zip(sys._g.attrs["nodes"].values(), sys._g.attrs["nodes"].keys()))
     for e in iter(sys._g.edge_indices()):
